@@ -53,6 +53,30 @@ def run(ctx):
         n = nt.get(cls)
         res, chain, mem = resolve_handler(model, ev, n)
         key = f"E/EvaluationMapper/{cls}"
+        # the judge: the handler -- a def, an alias, or a function made by a
+        # factory in the class body -- interpreted on abstract operands
+        jwit = None
+        if kind not in ("getitem", "getattr", "identity", "lookup") \
+                and res.via != "unsupported":
+            from .. import evaljudge
+            try:
+                jwit, n_cases, (jowner, jmem) = evaluate_judge(
+                    evaljudge, model, ev, cls, n, kind, sym, fields)
+            except AnalysisError as e:
+                ctx.extra.setdefault("judge_unavailable:evaluator-handlers",
+                                     []).append(f"{cls}: {e}")
+        if jwit is not None:
+            loc_ = jowner.module.loc(jmem.node)
+            ctx.ob(f"E0/EvaluationMapper/{cls}/denotation", not jwit, loc_,
+                   f"{cls}: interpreted on {n_cases} operand scenario(s), "
+                   f"computes {sym or kind} of the operands' values, evaluating "
+                   "what Python would" if not jwit else
+                   f"EvaluationMapper's handler for {cls}: " + "; ".join(jwit[:2]))
+            if not jwit:
+                judged += 1
+                ctx.ob(key, True, loc_, f"{cls}: decided by interpretation",
+                       {"denotes": sym or kind}, nontrivial=False)
+                continue
         if mem is None or mem.kind != "func" or res.via == "unsupported" or \
                 is_raising(mem):
             ctx.ob(key, False, ev.loc(),
@@ -72,6 +96,10 @@ def run(ctx):
     _errors(ctx, model, ev)
     _coverage(ctx, model, ev)
     _variants(ctx, model)
+
+
+def evaluate_judge(evaljudge, model, ev, cls, n, kind, sym, fields):
+    return evaljudge.judge(model, ev, cls, n.mapper_method, kind, sym, fields)
 
 
 def _judge(model, cls, kind, sym, fields, pss, mem):
@@ -387,6 +415,21 @@ def _comparison_table(ctx, model):
 def _foreign(ctx, model, ev):
     for slot, ctor in (("map_tuple", "tuple"), ("map_list", "list")):
         mem = model.lookup(ev, slot)
+        swit = None
+        try:
+            from .. import evaljudge
+            swit = evaljudge.judge_sequence(model, ev, slot,
+                                            tuple if ctor == "tuple" else list)
+        except AnalysisError as e:
+            ctx.extra[f"judge_unavailable:{slot}"] = str(e)
+        if swit is not None:
+            ctx.ob(f"E0/EvaluationMapper/{slot}/elementwise", not swit,
+                   where(mem) if mem else ev.loc(),
+                   f"interpreted on 0..3 entries: a {ctor} of the entries' "
+                   "values in order, each evaluated once" if not swit else
+                   f"EvaluationMapper.{slot}: " + "; ".join(swit[:2]))
+            if not swit:
+                continue
         ok = False
         if mem is not None and mem.kind == "func":
             for ps in summarize(mem.node):
@@ -405,7 +448,21 @@ def _foreign(ctx, model, ev):
            "a constant evaluates to itself")
     mem = model.lookup(ev, "map_numpy_array")
     ok = False
-    if mem is not None and mem.kind == "func":
+    awit = None
+    try:
+        from .. import evaljudge
+        awit = evaljudge.judge_array(model, ev)
+    except AnalysisError as e:
+        ctx.extra["judge_unavailable:map_numpy_array"] = str(e)
+    if awit is not None:
+        ctx.ob("E0/EvaluationMapper/map_numpy_array/entrywise", not awit,
+               where(mem), "interpreted on a 2 x 2 object array: a new array "
+               "of that shape holding the value of every entry, each evaluated "
+               "once" if not awit else
+               "EvaluationMapper.map_numpy_array: " + "; ".join(awit))
+    if awit is not None and not awit:
+        pass
+    elif mem is not None and mem.kind == "func":
         # the result is an array filled, for every index of the operand's
         # shape, with the evaluation of the entry at that index
         ok = True
@@ -421,8 +478,9 @@ def _foreign(ctx, model, ev):
                 and it[2] == (("attr", NODE, "shape"),) \
                 and key == ("elem", it) \
                 and val == ("rec", ("index", NODE, None, key), True, ())
-    ctx.ob("E/EvaluationMapper/map_numpy_array", ok, where(mem),
-           "every array entry is evaluated")
+    if not (awit is not None and not awit):
+        ctx.ob("E/EvaluationMapper/map_numpy_array", ok, where(mem),
+               "every array entry is evaluated")
 
 
 def _errors(ctx, model, ev):
@@ -446,13 +504,28 @@ def _errors(ctx, model, ev):
            "map_variable has no path that reports a missing variable")
     # no handler swallows arithmetic errors
     n_handlers = 0
+    mod_funcs = {st.name: st for st in ev.module.tree.body
+                 if isinstance(st, ast.FunctionDef)}
     for name, mem in model.slots(ev).items():
-        if mem is None or mem.kind != "func":
+        if mem is None:
             continue
+        body = mem.node
+        if mem.kind != "func":
+            # a handler made by a factory in the class body: the factory's
+            # body (with the function it returns) is what runs
+            v = mem.node.value if mem.kind == "ann" else mem.node
+            if isinstance(v, ast.Call) and isinstance(v.func, ast.Name) and \
+                    v.func.id in mod_funcs:
+                body = mod_funcs[v.func.id]
+            elif isinstance(v, ast.Name) and v.id in mem.owner.members and \
+                    mem.owner.members[v.id].kind == "func":
+                body = mem.owner.members[v.id].node
+            else:
+                continue
         if mem.owner.name == "CSECachingMapperMixin":
             continue
         n_handlers += 1
-        for h in ast.walk(mem.node):
+        for h in ast.walk(body):
             if isinstance(h, ast.ExceptHandler):
                 t = ast.unparse(h.type) if h.type is not None else "<bare>"
                 ok = t == "KeyError" and name == "map_variable"
@@ -464,10 +537,84 @@ def _errors(ctx, model, ev):
            ev.loc(), f"{n_handlers} handlers scanned for except clauses")
 
 
+def _context_or_empty(v):
+    """('value', src) where src is `{} if context is None else context` (or
+    the mirror image): the argument, an empty mapping when there is none"""
+    if not (isinstance(v, tuple) and len(v) == 2 and v[0] == "value"):
+        return False
+    try:
+        e = ast.parse(v[1], mode="eval").body
+    except SyntaxError:
+        return False
+    if not isinstance(e, ast.IfExp):
+        return False
+    t = ast.unparse(e.test).replace(" ", "")
+    empty = lambda x: ast.unparse(x).replace(" ", "") in ("{}", "dict()")  # noqa: E731
+    same = lambda x: isinstance(x, ast.Name) and x.id == "context"      # noqa: E731
+    return (t == "contextisNone" and empty(e.body) and same(e.orelse)) or (
+        t == "contextisnotNone" and same(e.body) and empty(e.orelse))
+
+
+def _judge_entry(m, fn):
+    """an entry point interpreted: the mapper class is a hook that records
+    what it is constructed with and applied to.  -> witnesses"""
+    from ..absint import Interp, Opaque, Raised, StepBound, module_env
+    glob = module_env(m.tree, {})
+    wit = []
+    kw_style = fn.args.kwarg is not None and "context" not in [
+        a.arg for a in fn.args.args]
+    D = {"x": 1, "y": 2}
+    for given in ((D,) if kw_style else (D, None, {})):
+        made = []
+
+        def mapper_cls(*a, _m=made, **k):
+            _m.append((a, k))
+            return lambda *a2, **k2: ("applied", len(_m) - 1, a2, k2)
+        kwargs = dict(mapper_cls=mapper_cls)
+        if kw_style:
+            kwargs.update(D)
+        else:
+            kwargs["context"] = given
+        it = Interp(globals_=glob, max_steps=4000,
+                    attrs=lambda it_, n_, b, at: Opaque(ast.unparse(n_)))
+        label = "keyword bindings" if kw_style else f"context={given!r}"
+        try:
+            got = it.call_function(fn, ["EXPR"], dict(glob, __kwargs__=kwargs))
+        except Raised as r:
+            wit.append(f"{label}: raises at line "
+                       f"{getattr(r.node, 'lineno', '?')}")
+            continue
+        except StepBound:
+            wit.append(f"{label}: does not terminate")
+            continue
+        if not (isinstance(got, tuple) and got[:1] == ("applied",) and
+                got[2:] == (("EXPR",), {})):
+            wit.append(f"{label}: answers {got!r}, not "
+                       "mapper_cls(context)(expression)")
+            continue
+        a, k = made[got[1]]
+        ctxv = a[0] if len(a) == 1 and not k else k.get("context") \
+            if not a and set(k) == {"context"} else "<?>"
+        if len(a) == 0 and not k:
+            ctxv = None
+        want = D if (kw_style or given is D) else given
+        ok = (ctxv is want) if want is D and not kw_style else (
+            ctxv == want or (want is None and ctxv in (None, {})) or
+            (want == {} and ctxv in (None, {})))
+        if not ok:
+            wit.append(f"{label}: the mapper is constructed with {ctxv!r}")
+    return wit
+
+
 def _coverage(ctx, model, ev):
     dedupe = set()
     pairs = 0
     for n, res, chain, mem in mapper_node_pairs(model, ev):
+        if mem is not None and mem.kind != "func" and any(
+                o.key == f"E0/EvaluationMapper/{n.name}/denotation" and o.ok
+                for o in ctx.obs):
+            pairs += 1      # a handler made in the class body, interpreted
+            continue
         if mem is None or mem.kind != "func":
             continue
         tag = f"D4/EvaluationMapper/{n.name}"
@@ -485,6 +632,9 @@ def _coverage(ctx, model, ev):
         if mem.owner.name == "CSECachingMapperMixin" or n.legacy or \
                 n.name not in DENOT:
             continue
+        if any(o.key == f"E0/EvaluationMapper/{n.name}/denotation" and o.ok
+               for o in ctx.obs):
+            continue    # the judge saw every operand evaluated (once, in order)
         kinds = child_kinds(n)
         covered = set()
         for ps in handler_summaries(model, n, mem.node):
@@ -515,7 +665,8 @@ def _variants(ctx, model):
            "dispatch through CachedMapper")
     from ..rules import init_effects
     eff = init_effects(model, cev)
-    ok = "_cache" in eff and eff.get("context") == ("param", "context")
+    ok = "_cache" in eff and (eff.get("context") == ("param", "context")
+                              or _context_or_empty(eff.get("context")))
     ctx.ob("S/CachedEvaluationMapper/init", ok, cev.loc(),
            "cache and context are both initialised" if ok else
            "constructing a CachedEvaluationMapper establishes "
@@ -523,6 +674,18 @@ def _variants(ctx, model):
            "CachedMapper and 'context' bound to the constructor argument")
     for fname in ("evaluate", "evaluate_kw", "evaluate_to_float"):
         m, fn = model.func(f"{EV}:{fname}")
+        try:
+            ewit = _judge_entry(m, fn)
+        except AnalysisError as e:
+            ewit = None
+            ctx.extra[f"judge_unavailable:{fname}"] = str(e)
+        if ewit is not None:
+            ctx.ob(f"P0/{fname}/entry-semantics", not ewit, m.loc(fn),
+                   f"{fname} interpreted with the mapper class as a hook: "
+                   "mapper_cls(<the caller's bindings>)(expression)" if not ewit
+                   else f"{fname}: " + "; ".join(ewit[:2]))
+            if not ewit:
+                continue
         # every return applies mapper_cls(<the context>) to the expression
         ok = True
         n_ret = 0
